@@ -428,6 +428,15 @@ def check_special(e, block):
     if ws[0] == "@res":
         got = res_class(block)
         return None if got in ws[1].split("|") else "specification expects outcome %s, implementation gives %s" % (ws[1], got)
+    if ws[0] in ("@keyeq", "@keyne"):
+        ks = [l.split(" ")[1] for l in block if l.startswith("key ")]
+        if len(ks) != 2:
+            return "two keys expected, %d reported" % len(ks)
+        if ws[0] == "@keyeq" and ks[0] != ks[1]:
+            return "messages that agree on every key field get different keys %s / %s" % (ks[0], ks[1])
+        if ws[0] == "@keyne" and ks[0] == ks[1]:
+            return "messages that differ in a key field get the same key %s" % ks[0]
+        return None
     if ws[0] in ("@fmt", "@jsonkeys", "@pbnum", "@render", "@agree"):
         import fmtoracle
         return fmtoracle.check(ws, block)
